@@ -45,6 +45,7 @@ def body(ctx: Ctx):
     diffs, fails, validated, hits = [], [], 0, 0
     for s, o in zip(scens, outs):
         j = ce.judge_confirmed(m, s, o)
+        ctx.count("labels.lookCancelled", j["info"].get("lookCancelled", 0))
         ncalls = sum(len(x) for x in s["sessions"])
         ctx.case({"workers": s["workers"], "block": s["block"], "sessions": [len(x) for x in s["sessions"]], "processes": s["_processes"]},
                  nontrivial=len(s["sessions"]) >= 2)
